@@ -117,6 +117,25 @@ func c05Stream(c *sim.Ctx) (stream []byte, plans []string) {
 		// emphasis on repeated sections
 		cfg.Types = []byte{ref.Subscribe, ref.Unsubscribe, ref.SubAck, ref.UnsubAck, ref.Publish, ref.Connect}
 	}
+	if t.Bool(1, 10) {
+		// a frame with thousands of list elements and THEN a small frame of the same
+		// type on the same connection: the small one's cost must follow its own
+		// size, not what the decoder saw before (capacity hints, pooled buffers)
+		big := gen.Bulk(t, c.Thorough)
+		f1, _ := ref.Encode(big)
+		scfg := cfg
+		scfg.Types = []byte{big.Type}
+		f2, _ := ref.Encode(gen.Packet(t, scfg))
+		stream = append(append(stream, f1...), f2...)
+		plans = append(plans, "valid(bulk)", "valid(same type, after the bulk frame)")
+		c.Count("probe.small-frame-after-bulk-frame-of-the-same-type")
+		if t.Bool(1, 2) {
+			f3, _ := ref.Encode(gen.Packet(t, scfg))
+			stream = append(stream, f3...)
+			plans = append(plans, "valid(same type)")
+		}
+		return
+	}
 	n := 1 + t.Pick(5, 2, 1)
 	for i := 0; i < n; i++ {
 		var f []byte
@@ -167,8 +186,16 @@ func runC05(c *sim.Ctx) *sim.Violation {
 			a1 := heapAllocs()
 			return p, err, pi, a1 - a0
 		}
+		// re-measurement repeats the connection's history: the frames before this
+		// one are decoded again (unmeasured) from a fresh reader, then this one
 		measure := func() uint64 {
-			_, _, _, a := rawRead(link.NewReader(c.Muted(), stream[start:], link.Mode{}))
+			rd := link.NewReader(c.Muted(), stream, link.Mode{})
+			for rd.Pos() < start {
+				if pi := sim.Guard(func() { mq.ReadPacket(rd) }); pi != nil || rd.Pos() > start {
+					return 0
+				}
+			}
+			_, _, _, a := rawRead(rd)
 			c05Disarm()
 			return a
 		}
